@@ -104,7 +104,7 @@ func genRelated(t *rapid.T, f *model.Forest, a []int) ([]int, string) {
 }
 
 func genC14(t *rapid.T) C14Case {
-	lim := tierLimits()
+	lim := genLimits(t)
 	c := C14Case{Rows: rapid.SampledFrom([]int{0, 0, 3, 5, 6, 8, 63, 63}).Draw(t, "rows")}
 	g := newWgen(true)
 	n := rapid.IntRange(1, lim.maxBlocks).Draw(t, "nsteps")
